@@ -296,3 +296,7 @@ def classify(case, obs):
 
 def nontrivial(case, obs):
     return bool(case.get("hit")) or case["kind"] in ("writeseq", "readov", "hdredit")
+
+
+def focus(changed):
+    G.set_focus(changed)
